@@ -42,7 +42,12 @@ def run(ctx: Ctx) -> None:
 
     # ---- X1 --------------------------------------------------------------------------------------
     ctx.rule("X1", "partial operations on the non-lark load path are guarded, raise Lark errors, or are tabled", 8)
-    for q in LOADPATH:
+    direct = facts.reachable_direct(["utils.open", "utils.load", "utils.loads"])
+    missing = [q for q in LOADPATH if q not in direct]
+    if missing:
+        raise AnalysisError(f"anchor vanished: {missing} no longer on the load path")
+    ctx.units["load_path_functions"] = sorted(direct)
+    for q in LOADPATH + sorted(direct - set(LOADPATH)):
         fn = repo.func(q)
         mod = q.split(".")[0]
         for n in ast.walk(fn):
@@ -68,6 +73,8 @@ def run(ctx: Ctx) -> None:
                     ctx.ok("X1", f"{q} | {key}", repo.loc(mod, n), "pop with default", nontrivial=False)
                 else:
                     ctx.finding("X1", f"{q} | {key}", repo.loc(mod, n), f"{key} may raise IndexError/KeyError on input-dependent data and is neither guarded nor tabled")
+            elif isinstance(n, ast.Assert) and _assert_on_defaults(facts, direct, q, fn, n):
+                ctx.ok("X1", f"{q} | {norm(n)[:70]}", repo.loc(mod, n), "the test reads only parameters, every call on the load path leaves them at their defaults, and it holds for the defaults")
             elif isinstance(n, ast.Assert):
                 ctx.finding("X1", f"{q} | {norm(n)[:70]}", repo.loc(mod, n), "assert on the load path outside a transformer callback: AssertionError escapes loads()")
             elif isinstance(n, ast.Raise):
@@ -183,6 +190,32 @@ def _const_index(sl: ast.AST):
     if isinstance(sl, ast.UnaryOp) and isinstance(sl.op, ast.USub) and isinstance(sl.operand, ast.Constant) and isinstance(sl.operand.value, int):
         return -sl.operand.value
     return None
+
+
+def _assert_on_defaults(facts, direct, q: str, fn: ast.FunctionDef, node: ast.Assert) -> bool:
+    """The assert reads nothing but parameters of ``fn``; every call of ``fn`` from the load path
+    passes no argument for them; the test is true for the declared defaults."""
+    params = [a.arg for a in fn.args.args]
+    defaults = dict(zip(params[len(params) - len(fn.args.defaults) :], fn.args.defaults))
+    names = {x.id for x in ast.walk(node.test) if isinstance(x, ast.Name)}
+    if not names or not names <= set(defaults):
+        return False
+    sites = [cs for caller in direct for cs in facts.calls.get(caller, []) if cs.target == q]
+    if not sites:
+        return False
+    for cs in sites:
+        if cs.node.args or any(k.arg is None or k.arg in names for k in cs.node.keywords):
+            return False
+    env = {}
+    for nm in names:
+        try:
+            env[nm] = fold(defaults[nm])
+        except Exception:
+            return False
+    try:
+        return bool(eval(compile(ast.Expression(node.test), "<assert>", "eval"), {"__builtins__": {}}, env))
+    except Exception:
+        return False
 
 
 def _index_guarded(fn: ast.FunctionDef, sub: ast.Subscript, idx: int) -> tuple[bool, str]:
